@@ -375,6 +375,56 @@ def c14_diag_det_zero():
     return None if ok else f"diagonal_gaussian_energy_grad at det = 0: location gradient {np.asarray(g)[:2].tolist()}, finite differences {np.round(fd, 4).tolist()}"
 
 
+def c10_csr_copy():
+    import umap
+    X = _rng(0).normal(size=(60, 5)).astype(np.float32)
+    S = scipy.sparse.csr_matrix(np.where(np.abs(X) > 0.5, X, 0))
+    with warnings.catch_warnings():
+        warnings.simplefilter("ignore")
+        m = umap.UMAP(n_neighbors=8, random_state=1, n_epochs=12).fit(S)
+        t = m.transform(S.copy())
+    return None if np.array_equal(t, m.embedding_, equal_nan=True) else "transform(copy of the CSR training data) is not embedding_"
+
+
+def c10_list_epochs():
+    import umap
+    X = _rng(0).normal(size=(60, 5)).astype(np.float32)
+    try:
+        with warnings.catch_warnings():
+            warnings.simplefilter("ignore")
+            m = umap.UMAP(n_neighbors=8, random_state=1, n_epochs=[6, 12]).fit(X)
+            out = m.transform((X[:4] + 0.01).astype(np.float32))
+            inv = m.inverse_transform(m.embedding_[:3])
+    except Exception as e:  # noqa
+        return f"model fitted with n_epochs=[6, 12]: {type(e).__name__}: {e}"
+    return None if out.shape == (4, 2) and inv.shape == (3, 5) else f"shapes {out.shape}, {inv.shape}"
+
+
+def c05_densmap_isolated():
+    import umap
+    X = _rng(0).normal(size=(60, 5)).astype(np.float32)
+    X[0] += 1000
+    try:
+        with warnings.catch_warnings():
+            warnings.simplefilter("ignore")
+            e = umap.UMAP(n_neighbors=8, random_state=1, n_epochs=12, densmap=True, disconnection_distance=50.0).fit_transform(X)
+    except Exception as ex:  # noqa
+        return f"densMAP with an isolated sample: {type(ex).__name__}: {ex}"
+    return None if e.shape == (60, 2) and np.isfinite(e[1:]).all() else "densMAP with an isolated sample: non-finite rows of connected samples"
+
+
+def c17_short_run():
+    """n_epochs <= 10 on a graph with edges between max/700 and max/500"""
+    import umap
+    X = _rng(0).normal(size=(300, 6)).astype(np.float32)
+    kw = dict(n_neighbors=30, random_state=3, n_epochs=5, set_op_mix_ratio=0.2)
+    with warnings.catch_warnings():
+        warnings.simplefilter("ignore")
+        a = umap.UMAP(**kw).fit_transform(X)
+        b = umap.UMAP(densmap=True, dens_lambda=0.0, **kw).fit_transform(X)
+    return None if np.array_equal(a, b, equal_nan=True) else f"densMAP (dens_lambda=0, n_epochs=5) differs from UMAP by {float(np.nanmax(np.abs(a - b)))}"
+
+
 def c03_pynn_sparse_small():
     """a metric only pynndescent registers (accepted for sparse input) on a small CSR matrix"""
     import umap
@@ -485,6 +535,10 @@ WITNESSES = {
     "C14:hellinger_grad-zero-distance": c14_hellinger_zero,
     "C14:diagonal_gaussian_energy_grad-det-zero": c14_diag_det_zero,
     "C03:pynn-only-metric-sparse-small-data": c03_pynn_sparse_small,
+    "C17:short-run-pruning-depends-on-densmap": c17_short_run,
+    "C10:sparse-training-data-not-recognised": c10_csr_copy,
+    "C10:list-n_epochs-transform-typeerror": c10_list_epochs,
+    "C05:densmap-isolated-sample": c05_densmap_isolated,
     "C14:bray_curtis_grad": c14_braycurtis,
     "C14:symmetric_kl_grad": c14_symmetric_kl,
     "C14:gaussian_energy_grad": c14_gaussian_energy,
